@@ -120,7 +120,10 @@ func (l Layout) Namespace() *models.Namespace {
 		}
 	}
 	ns.ShardRules = []*models.Shard{t,
-		{DB: LogicDB, Table: "t2", Type: "linked", Key: "id", ParentTable: "t"}, g}
+		{DB: LogicDB, Table: "t2", Type: "linked", Key: "id", ParentTable: "t"},
+		// a linked table whose own sharding column is named differently from the parent's
+		// (no data: it is only the target of statements that must be refused at plan time)
+		{DB: LogicDB, Table: "t3", Type: "linked", Key: "uid", ParentTable: "t"}, g}
 	return ns
 }
 
